@@ -54,8 +54,9 @@ class LexicalDistance:
     def __init__(self, input_: str) -> None:
         self._input = input_
         self._input_lower_case = input_.lower()
-        row_size = len(input_) + 1
         self._input_list = list(map(ord, self._input_lower_case))
+        # the lower case form can be longer than the input (e.g. for U+0130)
+        row_size = len(self._input_list) + 1
 
         self._rows = [[0] * row_size, [0] * row_size, [0] * row_size]
 
